@@ -141,6 +141,8 @@ type BuildInfo struct {
 	PluginLog string   `json:"plugin_log"`
 	Generated string   `json:"generated_file"`
 	Shapes    []string `json:"shapes"`
+	KL        int      `json:"kl"`
+	KM        int      `json:"km"`
 }
 
 // buildProgram assembles the scratch module for one corpus program (same-package mode).
@@ -198,10 +200,17 @@ func buildProgram(p *Program, pluginBin, out string, kl, km int) (*BuildInfo, er
 			switch fam {
 			case "rt":
 				g.harnessRT(r)
+			case "from":
+				g.harnessFrom(r)
+			case "echo":
+				g.harnessEcho(r)
+			case "refresh":
+				g.harnessRefresh(r)
 			}
 		}
 	}
 	info.Harnesses = g.hs
+	info.KL, info.KM = kl, km
 	imports := []string{`"context"`, `"time"`, `"github.com/hashicorp/terraform-plugin-framework/attr"`, `"github.com/hashicorp/terraform-plugin-framework/diag"`,
 		`"github.com/hashicorp/terraform-plugin-framework/types"`, `"` + modName + `/vrt"`}
 	writeFile(filepath.Join(out, pkg, "zz_spec.go"), []byte(g.file(pkg, imports)))
